@@ -66,6 +66,7 @@ pub fn oracle(case: &Case) -> Outcome {
 pub fn run(ctx: &Ctx) {
     ctx.replay_findings(&oracle);
     ctx.search("hostile-histories", ctx.n(400_000, 12_000_000), &gen::hostile_case, &oracle);
+    ctx.search("datagram-sized-stress-cases-mutated", ctx.n(640, 20_000), &super::c01::stress_mut_case, &oracle);
     let cfg = gen::StreamCfg::small(gen::Mix { fixed: 2, v9: 2, ipfix: 2 });
     ctx.search(
         "conformant-chained",
